@@ -21,7 +21,7 @@ func init() {
 			"one comparison of two computed keys. R1 (SYM): both operands are observed through the same predicates, the two keys are the same multiset of terms under the substitution f<->r, and irreflexivity, asymmetry, transitivity and " +
 			"transitivity of incomparability are checked by exhaustion over all abstract rules (valuation of the observables x key in {0,1,2}; three key values realise every ordering of three keys). R2: the extracted relation equals the " +
 			"documented lexicographic order (verdict class, [redirect], domain-specific over generic, more modifiers over fewer). R3 (COV): every modifier field written by the option loaders is a term of the key. R4/R5 (WIRE): at every " +
-			"selection site the incumbent is replaced only if nil or outranked by the candidate (receiver/argument orientation), and the scan has no early exit that returns a winner; the decision to replace reads the incumbent only through == nil, identity and the relation itself (any other test on the incumbent skips comparisons the relation would have decided). An identity pre-test (f == r) is split off and checked to answer false; comparisons of rank selections among constants are lifted into the feature logic. Nothing is executed. R6: disabledOptions is only ever or-ed into (a negated modifier must not wipe earlier ones). The key may be summed by a loop over a small fixed table of its terms (unrolled). R7 imports C04.R10 (content-type modifiers are never taken back, so each counts in the key).",
+			"selection site the incumbent is replaced only if nil or outranked by the candidate (receiver/argument orientation), and the scan has no early exit that returns a winner; the decision to replace reads the incumbent only through == nil, identity and the relation itself (any other test on the incumbent skips comparisons the relation would have decided). An identity pre-test (f == r) is split off and checked to answer false; comparisons of rank selections among constants are lifted into the feature logic. Nothing is executed. R6: disabledOptions is only ever or-ed into (a negated modifier must not wipe earlier ones). The key may be summed by a loop over a small fixed table of its terms (unrolled). R7 imports C04.R10 (content-type modifiers are never taken back, so each counts in the key). R4 also: a scan that keeps its incumbent in a loop-carried variable starts with nil: a first element taken as it is would bypass the tests the scan applies to its candidates.",
 		Trusted: []string{
 			"a left-to-right replace-if-higher scan under a strict weak order returns a maximal element for every permutation (textbook argument, not re-proved)",
 			"the observables are treated as independent features of a rule; the key is treated as independent of them (over-approximation: more abstract rules than real ones)",
